@@ -178,16 +178,14 @@ var Current *Session
 
 func init() {
 	txfile.VerifSetHook(func(name string, args ...uint64) {
-		s := Current
-		if s == nil {
-			return
+		if s := Current; s != nil {
+			switch name {
+			case "flush", "ckpt":
+				s.hookLog = append(s.hookLog, fmt.Sprintf("%s:%d:%d", name, args[0], args[1]))
+			}
 		}
-		switch name {
-		case "flush", "ckpt":
-			s.hookLog = append(s.hookLog, fmt.Sprintf("%s:%d:%d", name, args[0], args[1]))
-		}
-		if PointHook != nil {
-			PointHook(name, args...)
+		if h := PointHook; h != nil {
+			h(name, args...)
 		}
 	})
 }
